@@ -745,6 +745,44 @@ def r8_falsy_numbers_survive(ctx, res):
         raise AnalysisError(f'only {n} writer / exporter functions examined for numeric truthiness tests')
 
 
+def text_files_name_their_encoding(ctx, res, prefix='text-encoding'):
+    """WN-LMF and ILI files are UTF-8 by declaration: every text-mode open of a data file in lmf / _ili / _export (reader and
+    writer) passes encoding='utf-8'; binary opens are exempt.  Without it the bytes dump()/export() write (and what load of an
+    ILI file reads) depend on the locale of the process - under a non-UTF-8 locale non-ASCII text raises or is written in another
+    encoding under the UTF-8 declaration."""
+    n = 0
+    for ms in ('lmf', '_ili', '_export'):
+        m = ctx.repo.mod(ms)
+        for f in m.funcs.values():
+            for c in walk_no_nested(f.node):
+                if not isinstance(c, ast.Call):
+                    continue
+                fn = norm(c.func)
+                is_open = fn == 'open' or (isinstance(c.func, ast.Attribute) and c.func.attr == 'open'
+                                           and norm(c.func.value) not in ('tarfile', 'gzip', 'lzma', 'os', 'webbrowser'))
+                if not is_open:
+                    continue
+                args = c.args[1:] if fn == 'open' else c.args
+                mode = args[0].value if args and isinstance(args[0], ast.Constant) else None
+                for k in c.keywords:
+                    if k.arg == 'mode' and isinstance(k.value, ast.Constant):
+                        mode = k.value.value
+                n += 1
+                key = f'{prefix}:{f.key}:{norm(c)[:50]}'
+                binary = isinstance(mode, str) and 'b' in mode
+                enc = [norm(k.value) for k in c.keywords if k.arg == 'encoding']
+                res.inst(key, m.loc(c), 'binary' if binary else f'text, encoding={enc[0] if enc else "<locale default>"}')
+                if not binary and (not enc or enc[0].strip('\'"').lower().replace('_', '-') not in ('utf-8', 'utf8')):
+                    res.find(key, m.loc(c), f'{f.qualname} opens a data file in text mode with `{norm(c)[:60]}` and no encoding=\'utf-8\': what is '
+                                            f'written / read depends on the locale of the process, not only on the data')
+    if n < 6:
+        raise AnalysisError(f'only {n} open() calls found in lmf / _ili / _export')
+
+
+def r9_encoding(ctx, res):
+    text_files_name_their_encoding(ctx, res)
+
+
 RULES = [
     ('C02-R1', r1_tables, 40),
     ('C02-R2', r2_model_reader, 70),
@@ -754,4 +792,5 @@ RULES = [
     ('C02-R6', r6_header_constants, 5),
     ('C02-R7', r7_writer_stateless, 3),
     ('C02-R8', r8_falsy_numbers_survive, 25),
+    ('C02-R9', r9_encoding, 6),
 ]
